@@ -115,8 +115,37 @@ def make_handler_variant(h, std, variant):
     return pan.EdgeCaseHandler(listmetric_zeroTP_handling=d, empty_list_std=pan.EDGE[std])
 
 
+def persistence(ctx):
+    """a long-lived evaluator keeps reporting its own handler's values while newer, different handlers are built"""
+    z = np.zeros((4, 6), np.uint8)
+    a = z.copy()
+    a[1:3, 1:4] = 1
+    probes = [("empty_pred", 1, z, a), ("empty_ref", 2, a, z), ("no_instances", 0, z, z)]
+    if getattr(ctx, "_persist8", None) is None:
+        h = handler_for(317)
+        metrics = ["DSC", "IOU", "ASSD", "RVD"]
+        ev = pan.make_evaluator({"input": "MATCHED_INSTANCE", "matcher": None, "metrics": metrics, "global": [], "handler": {m: h[m] for m in metrics}, "std": "ONE"})
+        ctx._persist8 = (ev, h, metrics)
+        return
+    ev, h, metrics = ctx._persist8
+    for name, sc, p, q in probes:
+        with np.errstate(all="ignore"):
+            out = pan.evaluate(ev, p.copy(), q.copy())
+        r = pan.read_result(out[next(iter(out))][0], metrics)
+        ctx.count("C08.zero_tp_judged")
+        ctx.count("C08.persistent_evaluator_rechecks")
+        for m in metrics:
+            want = ref.EDGE_VALUE[h[m][sc]]
+            if not pan.same(r[NAMES[m]], want):
+                ctx.viol("aggregate_not_handler_value", {"scenario": name, "handler": h, "metric": m, "got": r[NAMES[m]], "expected": want, "note": "long-lived evaluator, other handlers were constructed since"},
+                         features={"scenario": name, "input": "MATCHED_INSTANCE", "metric": m, "long_lived": True})
+                return
+
+
 def run(case, ctx):
     fam, i = case["fam"], case["i"]
+    if getattr(ctx, "_persist8", None) is None or ctx.cases_run % 25 == 0:
+        persistence(ctx)
     if fam == "independence":
         return independence(ctx, i)
     std = case["std"]
